@@ -13,12 +13,12 @@ import (
 // savedCase makes a replay self-contained: the shrunk configuration is no longer what
 // (seed, index) generates.
 type savedCase struct {
-	Seed  uint64           `json:"seed"`
-	Index int              `json:"index"`
-	Uni   int              `json:"uni"`
-	Knobs string           `json:"knobs"`
-	Cfg   *fedlab.Config   `json:"config"`
-	U     *fedlab.Universe `json:"universe"`
+	Seed  uint64            `json:"seed"`
+	Index int               `json:"index"`
+	Uni   int               `json:"uni"`
+	Knobs string            `json:"knobs"`
+	Cfg   *fedlab.Config    `json:"config"`
+	U     *fedlab.Universe  `json:"universe"`
 	Op    *fedlab.Operation `json:"operation"`
 }
 
